@@ -64,8 +64,8 @@ GW_PROFILES = {
     "C09": [("mix", 300, 3000), ("connect", 800, 8000)],
     "C10": [("mix", 300, 3000), ("connect", 500, 5000), ("long", 200, 2000)],
     "C11": [("mix", 500, 5000), ("long", 500, 5000)],
-    "C12": [("mix", 300, 3000), ("long", 700, 7000)],
-    "C34": [("mix", 300, 3000), ("long", 700, 7000)],
+    "C12": [("keepalive", 600, 6000), ("mix", 300, 3000), ("long", 200, 2000)],
+    "C34": [("keepalive", 600, 6000), ("mix", 300, 3000), ("long", 200, 2000)],
 }
 
 
@@ -454,3 +454,22 @@ PROPS["C15"] = {
                     "peers using the same MQTT client ID are out of scope (the broker, not the gateway, resolves that)"],
     "explanation": "theorems c15_*; relational two-peer runs of the real gateway",
 }
+
+PROPS.update({
+    "C12": gw("C12",
+              "The property is FALSE of the unchanged code: three families of histories are recorded as known findings (broker-starved/client-traffic-answered-locally, "
+              "…/sleep-not-longer-than-keep-alive-has-no-pinger, …/first-sleep-ping-a-full-keep-alive-after-falling-asleep). Proved for ALL states of the gateway model "
+              "(partial): c12_partial_forwarded, c12_partial_pinger, c12_partial_pinger_ticks, c12_no_pinger_for_short_sleep. The monitor Spec.c12 evaluates the full "
+              "property on implementation traces of clients that meet their obligations (keepalive profile); a starvation outside the recorded families is a violation",
+              "partial theorems c12_*; monitor Spec.c12; 3 known findings",
+              assumptions=["the client's obligations are evaluated from the trace (a datagram within every keep-alive while active; a wake-up within every announced sleep); once "
+                           "the client breaks them the monitor stops judging that trace"]),
+    "C34": gw("C34",
+              "Gateway side under the stated broker assumption: Lean theorems c34_pinger_stops (+ c34_pinger_cancelled), c34_retries_stop, c34_broker_eof_ends, "
+              "c34_half_open_connect for ALL states of the gateway model; the monitor Spec.c34 checks on implementation traces of vanishing clients that the gateway sends "
+              "nothing to the broker of its own accord after the announced sleep plus the retry budget, and the session-end rules of C13 / C10 (incl. the goroutine census) "
+              "are applied as 'session-not-reaped'. The broker's own keep-alive enforcement is the environment and is not executed",
+              "theorems c34_*; monitors Spec.c34 + C13/C10 rules re-labelled",
+              assumptions=["a keep-alive-enforcing broker is assumed, not run: the bound '1.5 x keep-alive after the last packet' is the broker's; the check establishes that the "
+                           "gateway's last packet of its own accord comes no later than the announced sleep + retry budget"]),
+})
